@@ -69,6 +69,39 @@ def minimise(case, clause):
 # explorer-chosen fills, prices, commissions) as a complete tree - close to exactly zero, re-open
 # and flip in one fill are reachable within two events
 # ------------------------------------------------------------------------------------------
+def _pf_check(port, refs, cash, hist):
+    from ..brokermachine import close
+    fails = []
+    d = port.portfolio_to_dict()
+    held = {a: r for a, r in refs.items() if r.net() != 0}
+    if set(d) != set(held):
+        fails.append({'clause': 'C02.holdings_set', 'detail': {'impl': sorted(d), 'ref': sorted(held), 'history': hist}})
+        return fails
+    mv = 0
+    for a, r in held.items():
+        if not close(d[a]['quantity'], r.net()):
+            fails.append({'clause': 'C02.quantity', 'detail': {'asset': a, 'impl': d[a]['quantity'], 'ref': r.net(),
+                                                               'history': hist}})
+        want = r.net() * r.price
+        mv += want
+        if not close(d[a]['market_value'], want):
+            fails.append({'clause': 'C02.market_value', 'detail': {'asset': a, 'impl': d[a]['market_value'],
+                                                                   'ref': float(want), 'history': hist}})
+    if not close(port.total_market_value, mv):
+        fails.append({'clause': 'C02.total_market_value', 'detail': {'impl': port.total_market_value, 'ref': float(mv),
+                                                                     'history': hist}})
+    if not close(port.total_equity, mv + cash):
+        fails.append({'clause': 'C02.total_equity', 'detail': {'impl': port.total_equity, 'ref': float(mv + cash),
+                                                               'history': hist}})
+    return fails
+
+def _cash_after(cash, ev):
+    from ..brokermachine import F
+    if ev[0] == 'fill':
+        return cash - (F(ev[3]) * ev[2] + F(ev[4]))
+    return cash
+
+
 def _pf_tree(args):
     from . import c03
     from ..brokermachine import F, close
@@ -76,35 +109,7 @@ def _pf_tree(args):
     evs = c03.pf_alphabet(tier)
     viols, n, shapes = [], 0, set()
 
-    def check(port, refs, cash, hist):
-        fails = []
-        d = port.portfolio_to_dict()
-        held = {a: r for a, r in refs.items() if r.net() != 0}
-        if set(d) != set(held):
-            fails.append({'clause': 'C02.holdings_set', 'detail': {'impl': sorted(d), 'ref': sorted(held), 'history': hist}})
-            return fails
-        mv = 0
-        for a, r in held.items():
-            if not close(d[a]['quantity'], r.net()):
-                fails.append({'clause': 'C02.quantity', 'detail': {'asset': a, 'impl': d[a]['quantity'], 'ref': r.net(),
-                                                                   'history': hist}})
-            want = r.net() * r.price
-            mv += want
-            if not close(d[a]['market_value'], want):
-                fails.append({'clause': 'C02.market_value', 'detail': {'asset': a, 'impl': d[a]['market_value'],
-                                                                       'ref': float(want), 'history': hist}})
-        if not close(port.total_market_value, mv):
-            fails.append({'clause': 'C02.total_market_value', 'detail': {'impl': port.total_market_value, 'ref': float(mv),
-                                                                         'history': hist}})
-        if not close(port.total_equity, mv + cash):
-            fails.append({'clause': 'C02.total_equity', 'detail': {'impl': port.total_equity, 'ref': float(mv + cash),
-                                                                   'history': hist}})
-        return fails
-
-    def cash_after(cash, ev):
-        if ev[0] == 'fill':
-            return cash - (F(ev[3]) * ev[2] + F(ev[4]))
-        return cash
+    check, cash_after = _pf_check, _cash_after
     port, refs, cash = c03.new_portfolio(), {}, F('100000')
     for i, ev in enumerate(prefix):
         port, refs, _ = c03.apply_portfolio(port, refs, ev, i)
@@ -145,6 +150,71 @@ def _pf_items(tier):
     return items
 
 
+
+# ------------------------------------------------------------------------------------------
+# part 3: wide books - 7 to 10 open positions out of 12 assets; every (close one, open another) swap in either
+# order, read after every event or only at the end (an aggregate kept up to date lazily must not go stale)
+# ------------------------------------------------------------------------------------------
+WIDE = ['S%02d' % i for i in range(12)]
+
+
+def _wide_items(tier):
+    ks = (8, 9) if tier == 'quick' else (6, 7, 8, 9, 10, 11)
+    return [(k, mode) for k in ks for mode in ('read_every_state', 'read_at_the_end')]
+
+
+def _wide_book(args):
+    from . import c03
+    from ..brokermachine import F
+    k, mode = args
+    viols, n, shapes = [], 0, set()
+    port, refs, cash, hist = c03.new_portfolio(), {}, F('100000'), []
+
+    def step(state, ev, read):
+        port, refs, cash, hist = state
+        port, refs, _ = c03.apply_portfolio(port, refs, ev, len(hist))
+        cash = _cash_after(cash, ev)
+        hist = hist + [list(ev)]
+        fails = _pf_check(port, refs, cash, hist) if read else []
+        return (port, refs, cash, hist), fails
+    state = (port, refs, cash, hist)
+    for i in range(k):
+        ev = ('fill', WIDE[i], (2 + i % 3) * (1 if i % 4 else -1), str(10 + i), '0.5')
+        state, fails = step(state, ev, mode == 'read_every_state')
+    base, fails = state, _pf_check(state[0], state[1], state[2], state[3])       # the book is valued at this size
+    n += 1
+    held = list(base[1].keys())
+    free = [a for a in WIDE if a not in base[1]]
+    plans = []
+    for a in held:
+        q = -int(base[1][a].net())
+        for b in free:
+            close_ev, open_ev = ('fill', a, q, '11.5', '0.5'), ('fill', b, 4, '21.25', '0.5')
+            plans.append([close_ev, open_ev])
+            plans.append([open_ev, close_ev])
+            plans.append([close_ev, open_ev, ('mark', b, '22')])
+    for a in held[:2]:
+        plans.append([('fill', a, -int(base[1][a].net()), '11.5', '0.5')])
+    for b in free[:2]:
+        plans.append([('fill', b, 4, '21.25', '0.5')])
+    for plan in plans:
+        if fails:
+            break
+        st = base
+        for idx, ev in enumerate(plan):
+            last = idx == len(plan) - 1
+            st, fails = step(st, ev, last or mode == 'read_every_state')
+            n += 1
+            if fails:
+                break
+        shapes.add((k, len(st[1])))
+    for f in fails:
+        f['case'] = {'harness': 'wide_book', 'k': k, 'mode': mode}
+        viols.append(f)
+    return {'viols': viols[:6], 'execs': n, 'evals': n, 'nontrivial': True, 'outcome': ('wide', k, mode),
+            'sets': {'wide_book_shapes': shapes}, 'counters': {'wide_book_states': n}}
+
+
 _run_broker = run
 
 
@@ -154,6 +224,9 @@ def run(tier, res, is_known):            # noqa: F811  (extends the broker-level
     if any(not is_known(v) for v in res.violations):
         return
     product(_pf_tree, _pf_items(tier), res, is_known, label='portfolio-level tree', chunk=1)
+    if any(not is_known(v) for v in res.violations):
+        return
+    product(_wide_book, _wide_items(tier), res, is_known, label='wide books (7-11 positions of 12 assets), swaps', chunk=1)
     if any(not is_known(v) for v in res.violations):
         return
     product(periodic, bm.periodic_items([FEE], repeats=(40, 150) if tier == 'quick' else (40, 150, 400)), res, is_known,
@@ -169,6 +242,8 @@ _replay_broker = replay
 def replay(case):                         # noqa: F811
     if case.get('harness') == 'periodic':
         return bm.replay_periodic(case, 'C02.')
+    if case.get('harness') == 'wide_book':
+        return _wide_book((case['k'], case['mode']))['viols']
     if case.get('harness') != 'portfolio_tree':
         return _replay_broker(case)
     out = _pf_tree(('quick', tuple(tuple(e) for e in case['history']), 0))
@@ -179,7 +254,7 @@ _minimise_broker = minimise
 
 
 def minimise(case, clause):               # noqa: F811
-    if case.get('harness') == 'periodic':
+    if case.get('harness') in ('periodic', 'wide_book'):
         return case
     if case.get('harness') != 'portfolio_tree':
         return _minimise_broker(case, clause)
